@@ -783,7 +783,8 @@ Definition is_progress (s : estate) (t : tid) (c : choice) : bool :=
      poke                                        the peers poke the engine after Run returned (no effect expected)
      finish
    After every op all enabled threads that are not pinned run, in a fixed order,
-   until nothing is enabled; the events are reported per thread. *)
+   until nothing is enabled; the events are reported per thread (those of the engine's
+   own threads only once no pin is armed, see run_ops). *)
 
 Definition act_of (a : arg) : act :=
   match a with
@@ -1154,6 +1155,14 @@ Definition apply_op (r : rstate) (l : line) : option (rstate * list line) :=
   | _ => None
   end.
 
+(* events of the engine's own threads (Run caller, loops, main reactor, ticker) are held back
+   while a pin is armed and reported in the first window without pins (a pinned thread makes the
+   others' reaction time unbounded, so their events are not attributed to single ops there);
+   results of user goroutines and workers are always reported in the window in which they occur *)
+Definition engine_thread (t : tid) : bool := match t with TR | TL _ | TA | TT => true | _ => false end.
+
+Definition is_finish (l : line) : bool := String.eqb (fst l) "finish".
+
 Fixpoint run_ops (fuel : nat) (r : rstate) (ops : list line) : list line :=
   match ops with
   | [] => []
@@ -1161,10 +1170,12 @@ Fixpoint run_ops (fuel : nat) (r : rstate) (ops : list line) : list line :=
       match apply_op r l with
       | None => bad "op"
       | Some (r1, direct) =>
-          let r2 := settle fuel (mkRS (rs_e r1) (rs_pins r1) (rs_io r1) (rs_ticks r1) (rs_ch r1) (rs_wh r1) (rs_uh r1) (rs_dial r1) (rs_out r1)) in
-          let out := report (rs_e r2) (rs_out r2) in
-          direct ++ out ++
-          run_ops fuel (mkRS (rs_e r2) (rs_pins r2) (rs_io r2) (rs_ticks r2) (rs_ch r2) (rs_wh r2) (rs_uh r2) (rs_dial r2) []) rest
+          let r2 := settle fuel r1 in
+          let held := match rs_pins r2 with [] => false | _ => negb (is_finish l) end in
+          let now := if held then filter (fun e => negb (engine_thread (fst e))) (rs_out r2) else rs_out r2 in
+          let keep := if held then filter (fun e => engine_thread (fst e)) (rs_out r2) else [] in
+          direct ++ report (rs_e r2) now ++
+          run_ops fuel (mkRS (rs_e r2) (rs_pins r2) (rs_io r2) (rs_ticks r2) (rs_ch r2) (rs_wh r2) (rs_uh r2) (rs_dial r2) keep) rest
       end
   end.
 
